@@ -1,6 +1,6 @@
 """C31  Manifest queries report what the manifest declares  (engine E2: bounded structure enumeration).
 
-A manifest MODEL is a value for each of 13 dimensions (alphabets below).  It is turned into a gen/axmlgen document,
+A manifest MODEL is a value for each of 14 dimensions (alphabets below).  It is turned into a gen/axmlgen document,
 serialised by that independent binary-XML writer, zipped (stdlib zipfile, single entry AndroidManifest.xml, no
 resources.arsc: every value is a literal) and loaded with APK(bytes, raw=True).  Every query named by the property is
 compared with the model.
@@ -26,6 +26,10 @@ Dimensions (alphabet sizes quick | thorough):
   enc    4        string pool UTF-8 / UTF-16 x resource map (attribute names bound to their android ids) present / absent
   extra  5        bystanders: none, <permission> declaration, <application android:name=".App" label>, <meta-data android:name="NoDotMeta">
                   in application and activity-less, all three
+  order  13       element order (varied around the RICH base only): all 6 orders of the three <manifest> child groups (uses-sdk |
+                  uses-permission, uses-feature, permission | application), all 6 orders of the three <application> child groups
+                  (activities and aliases | services, receivers, providers | uses-library, meta-data), items of every group
+                  reversed, everything reversed
 
 Space = for each of two base models (MIN: everything empty/absent; RICH: one of everything) every model that differs from the
 base in at most two dimensions (each dimension at its full alphabet x all pairs of dimensions at their full alphabets);
@@ -41,6 +45,15 @@ variations (thorough: also MIN's, and the RICH pairs over main, feat, extra) a F
 the history is executed and then the complete judging routine runs; a violation that does not occur without the history is
 reported under  <api>:after:<pre-query>[+<pre-query>].
 
+Decoy history (state carried from one APK object to the next in the same process): every shard and every replay starts by opening
+and querying a decoy manifest per package (same package / component / permission names, other declarations); inside a shard each
+model is judged right after the previous model of the enumeration, which is recorded in the witness and re-opened by replay().
+
+Alternative entry points must agree with the model too (keys <api>:alt:<entry>): get_all_attribute_value (formatted and raw),
+find_tags counts, get_attribute_value for package and the uses-sdk attributes, get_android_manifest_xml / get_android_manifest_axml
+(package, component and uses-permission elements), requested permissions = aosp + third-party partition, get_details_permissions
+and get_uses_implied_permission_list against the requested set, get_declared_permissions.
+
 Oracle = the model + Android's class-name completion rule (leading '.' -> package + name; no '.' at all -> package + '.' + name;
 otherwise unchanged) applied to component names ONLY.  Permission, feature and library names are compared literally.
 Comparisons are unordered (multisets) because find_tags collects elements into a set.
@@ -53,13 +66,14 @@ from mc.core import Acc
 
 PROPERTY = "C31"
 LEVEL = "exploration"
-RULE = ("manifest models over 13 dimensions (package, version, uses-permission list, 4 component name sets, MAIN/LAUNCHER "
-        "patterns, uses-sdk, features, libraries, pool encoding/resource map, bystander elements): around an empty and a rich "
+RULE = ("manifest models over 14 dimensions (package, version, uses-permission list, 4 component name sets, MAIN/LAUNCHER "
+        "patterns, uses-sdk, features, libraries, pool encoding/resource map, bystander elements, element order): around an empty and a rich "
         "base model every dimension at its full alphabet and every pair of dimensions at their full alphabets (thorough: plus "
         "the full product of package x 4 component name sets x main); each model written by gen/axmlgen, zipped, loaded by "
         "APK(raw=True); cases are distinct model tuples; non-trivial = differs from the empty base; history dimension: for the "
         "rich base and its single-dimension variations every single pre-query out of 30 and every ordered pair of 6 is run on a "
-        "fresh APK object before the same judging")
+        "fresh APK object before the same judging; every model is judged after a different manifest with the same names was open "
+        "in the process; alternative entry points are compared with the model as well")
 ASSUMPTIONS = [
     "gen/axmlgen.py is the independent binary-XML writer (byte layer reproduces 1005 shipped aapt/aapt2 files); the zip "
     "container is written by the stdlib zipfile module (deflated, one entry) - zip layouts are C33/C34's subject",
@@ -73,6 +87,9 @@ ASSUMPTIONS = [
     "effective target SDK is judged only when the values involved are numeric (target, else min, else 1); with a codename "
     "only 'int > 0' (the documented contract) is demanded",
     "the full cartesian product of all dimensions is replaced by the all-pairs-around-two-bases union stated in space()",
+    "element order is varied by groups (6 + 6 group orders, reversal inside groups) around the RICH base only; any order of "
+    "<manifest> / <application> children is legal for Android",
+    "cross-APK state: the predecessor of a model is the previous model of its shard (or the fixed decoy), not every possible one",
     "histories are bounded to depth 2 (depth 1 over all 30 manifest queries, depth 2 over a 6-query menu) on the history models "
     "listed in space(); exceptions raised by a pre-query itself (get_app_icon without resources) are not judged",
 ]
@@ -80,12 +97,12 @@ MANIFEST = {
     "engine": "E2-structures",
     "technique": "bounded enumeration of manifest models serialised by an independent AXML writer and zipped; every manifest "
                  "query compared with the generating model",
-    "text": "Every manifest model that differs from an empty and from a rich base manifest in at most two of 13 dimensions "
+    "text": "Every manifest model that differs from an empty and from a rich base manifest in at most two of 14 dimensions "
             "(package with/without dot, typed/string version attributes, permission lists with duplicates, maxSdkVersion and "
             "dot-less names, all subsets of relative/dot-less/qualified component names plus the boundary shapes of the dot rule "
             "('Trail.', '.', '..Two', 'A.B', 'a') for the four component kinds, 28 "
             "MAIN/LAUNCHER patterns incl. aliases and disabled activities, all 27+1 uses-sdk shapes incl. codenames, features, "
-            "libraries, pool encodings) is built into a real APK and every query of the property is compared with the model "
+            "libraries, pool encodings, element orders) is built into a real APK and every query of the property is compared with the model "
             "under Android's name completion rule; on ~215 of the models the same judging is repeated after every single other manifest "
             "query and every ordered pair of six of them on a fresh object (answers must not depend on the query history).  This level fits because the queries are pure functions of a small tree.",
     "note": "Trusted: gen/axmlgen (validated against shipped files), stdlib zipfile, the stated Android completion rule. "
@@ -177,6 +194,9 @@ def dims(ctx):
     enc = [[False, True], [True, True], [False, False], [True, False]]
     extra = [[], ["permission-decl"], ["app-name"], ["meta-data"], ["permission-decl", "app-name", "meta-data"]]
     mains = [e for _, e in MAIN_ALPHA]
+    p3 = [list(p) for p in itertools.permutations(range(3))]
+    order = [[p3[0], p3[0], False]] + [[p, p3[0], False] for p in p3[1:]] + [[p3[0], p, False] for p in p3[1:]] + \
+            [[p3[0], p3[0], True], [p3[-1], p3[-1], True]]
     return [
         ("pkg", ["com.a", "a"], 0),
         ("ver", vers, vers.index([["int", 1], "1.0"])),
@@ -191,7 +211,11 @@ def dims(ctx):
         ("libs", libs, libs.index([LIB_ITEMS[0]])),
         ("enc", enc, 1),
         ("extra", extra, 0),
+        ("order", order, 0),
     ]
+
+
+RICH_ONLY = {"order"}       # dimensions that are only varied around the RICH base (degenerate on the almost empty MIN manifest)
 
 
 _CASES = {}
@@ -209,14 +233,17 @@ def _cases(ctx):
     sizes = [len(a) for _, a, _ in D]
     nd = len(D)
     out = set()
-    for base in (tuple([0] * nd), tuple(r for _, _, r in D)):
+    for bi, base in enumerate((tuple([0] * nd), tuple(r for _, _, r in D))):
         out.add(base)
-        for i in range(nd):
+        live = [i for i in range(nd) if bi == 1 or D[i][0] not in RICH_ONLY]
+        for i in live:
             for vi in range(sizes[i]):
                 t = list(base)
                 t[i] = vi
                 out.add(tuple(t))
-                for j in range(i + 1, nd):
+                for j in live:
+                    if j <= i:
+                        continue
                     for vj in range(sizes[j]):
                         t[j] = vj
                         out.add(tuple(t))
@@ -275,13 +302,14 @@ def build_doc(m):
     if vname is not None:
         mattrs.append(_attr("versionName", vname))
     mattrs.append(_attr("package", m["pkg"], ns=None))
-    kids = []
+    mperm, aperm, rev = m.get("order") or [[0, 1, 2], [0, 1, 2], False]
+    g_sdk, kids, g_app = [], [], []
     if m["sdk"] is not None:
         sa = []
         for an, v in zip(("minSdkVersion", "targetSdkVersion", "maxSdkVersion"), m["sdk"]):
             if v is not None:
                 sa.append(_tv(an, v))
-        kids.append(_el("uses-sdk", sa))
+        g_sdk.append(_el("uses-sdk", sa))
     for n, mx in m["perms"]:
         kids.append(_el("uses-permission", [_attr("name", n)] + ([_attr("maxSdkVersion", mx)] if mx is not None else [])))
     for n, req in m["feat"]:
@@ -295,7 +323,7 @@ def build_doc(m):
     app_attrs = []
     if "app-name" in extra:
         app_attrs = [_attr("label", "App"), _attr("name", ".App")]
-    app = []
+    app, a_comp, a_lib = [], [], []
     for n in m["act"]:
         app.append(_el("activity", [_attr("name", n)]))
     for e in m["main"]:
@@ -307,13 +335,17 @@ def build_doc(m):
         app.append(_el("activity" if e["k"] == "activity" else "activity-alias", at, [_filter(f) for f in e["f"]]))
     for tag, key in (("service", "svc"), ("receiver", "rcv"), ("provider", "prv")):
         for n in m[key]:
-            app.append(_el(tag, [_attr("name", n)]))
+            a_comp.append(_el(tag, [_attr("name", n)]))
     for n, req in m["libs"]:
-        app.append(_el("uses-library", [_attr("name", n)] + ([_attr("required", req)] if req is not None else [])))
+        a_lib.append(_el("uses-library", [_attr("name", n)] + ([_attr("required", req)] if req is not None else [])))
     if "meta-data" in extra:
-        app.append(_el("meta-data", [_attr("name", "NoDotMeta"), {"ns": A_NS, "name": "value", "t": 0x03, "d": 0, "s": "v"}]))
-    kids.append(_el("application", app_attrs, app))
-    root = _el("manifest", mattrs, kids)
+        a_lib.append(_el("meta-data", [_attr("name", "NoDotMeta"), {"ns": A_NS, "name": "value", "t": 0x03, "d": 0, "s": "v"}]))
+    agroups = [app, a_comp, a_lib]
+    if rev:
+        agroups = [g[::-1] for g in agroups]
+    g_app.append(_el("application", app_attrs, [e for i in aperm for e in agroups[i]]))
+    mgroups = [g_sdk, kids[::-1] if rev else kids, g_app]
+    root = _el("manifest", mattrs, [e for i in mperm for e in mgroups[i]])
     root["decl"] = [["android", A_NS]]
     utf8, resmap = m["enc"]
     return {"utf8": bool(utf8), "resmap": bool(resmap), "root": root}
@@ -444,6 +476,97 @@ PRE2 = ["get_app_name", "is_androidtv", "get_main_activity", "get_activities", "
 def histories():
     """every single pre-query (depth 1) and every ordered pair over the reduced menu PRE2 (depth 2)"""
     return [(h,) for h in PRE] + [tuple(p) for p in itertools.product(PRE2, repeat=2)]
+
+
+_DECOY = {}
+
+
+def decoy_model(pkg):
+    """a different manifest that uses the SAME package, component, permission names with other declarations"""
+    return {"pkg": pkg, "ver": [["int", 99], "9.9"], "perms": [["android.permission.DECOY", None], ["android.permission.X", 7]],
+            "act": ["NoDot", "other.p.C"], "svc": [".Rel"], "rcv": ["NoDot"], "prv": ["com.a.Full"], "main": [_act(".Rel", [ML])],
+            "sdk": [["int", 4], ["int", 5], ["int", 6]], "feat": [["decoy.feature", None], ["android.hardware.touchscreen", None]],
+            "libs": [["decoy.lib", None]], "enc": [False, True], "extra": ["app-name"]}
+
+
+def _decoy(pkg, stats=None):
+    """DECOY HISTORY: open and query the decoy manifest in this process (results ignored).  Run at the start of every shard and
+    of every replay; inside a shard the PREVIOUS model of the enumeration (same package and names, other declarations) is the
+    decoy of the next one and is recorded in the witness, so replay() re-creates decoy -> previous model -> judged model and
+    state carried from one APK object to the next reproduces in the fresh-process confirmation."""
+    from androguard.core.apk import APK
+    if pkg not in _DECOY:
+        _DECOY[pkg] = build_apk(decoy_model(pkg))
+    try:
+        d = APK(_DECOY[pkg], raw=True)
+        for f in (d.get_package, d.get_androidversion_code, d.get_androidversion_name, d.get_permissions, d.get_activities,
+                  d.get_services, d.get_receivers, d.get_providers, d.get_main_activities, d.get_main_activity,
+                  d.get_min_sdk_version, d.get_target_sdk_version, d.get_max_sdk_version, d.get_effective_target_sdk_version,
+                  d.get_features, d.get_libraries, d.get_app_name, d.is_androidtv, d.get_declared_permissions,
+                  d.get_details_permissions, d.get_uses_implied_permission_list, d.get_android_manifest_xml):
+            f()
+    except Exception:     # noqa
+        if stats is not None:
+            stats("decoy_exception")
+
+
+def _alt(a, m, q, out):
+    """ALTERNATIVE ENTRY POINTS must tell the same story as the main queries."""
+    pkg = m["pkg"]
+    comp = {"activity": list(m["act"]) + [e["n"] for e in m["main"] if e["k"] == "activity"],
+            "service": m["svc"], "receiver": m["rcv"], "provider": m["prv"]}
+
+    def bad(api, entry, msg):
+        out.append(("%s:alt:%s" % (api, entry), msg))
+    for tag, raws in comp.items():
+        api = {"activity": "activities", "service": "services", "receiver": "receivers", "provider": "providers"}[tag]
+        g = q("gaav:" + tag, lambda: list(a.get_all_attribute_value(tag, "name")))
+        if g != ("<exc>",) and sorted(g) != sorted(complete(pkg, n) for n in raws):
+            bad(api, "get_all_attribute_value", "get_all_attribute_value(%r, 'name') = %r, manifest declares %r" % (tag, sorted(g), raws))
+        g = q("gaav-raw:" + tag, lambda: list(a.get_all_attribute_value(tag, "name", format_value=False)))
+        if g != ("<exc>",) and sorted(g) != sorted(raws):
+            bad(api, "get_all_attribute_value-unformatted", "get_all_attribute_value(%r, 'name', format_value=False) = %r, manifest "
+                "declares %r" % (tag, sorted(g), raws))
+        g = q("find_tags:" + tag, lambda: len(a.find_tags(tag)))
+        if g != ("<exc>",) and g != len(raws):
+            bad(api, "find_tags", "find_tags(%r) finds %r elements, manifest declares %d" % (tag, g, len(raws)))
+    g = q("gav:package", lambda: a.get_attribute_value("manifest", "package"))
+    if g != pkg:
+        bad("package", "get_attribute_value", "get_attribute_value('manifest', 'package') = %r, manifest declares %r" % (g, pkg))
+    s = m["sdk"] or [None, None, None]
+    for an, v in zip(("minSdkVersion", "targetSdkVersion", "maxSdkVersion"), s):
+        g = q("gav:" + an, lambda: a.get_attribute_value("uses-sdk", an))
+        if g != _tvs(v) and not (v is None and g in (None, "")):
+            bad({"minSdkVersion": "min_sdk_version", "targetSdkVersion": "target_sdk_version", "maxSdkVersion": "max_sdk_version"}[an],
+                "get_attribute_value", "get_attribute_value('uses-sdk', %r) = %r, manifest declares %r" % (an, g, _tvs(v)))
+    # the two manifest tree accessors show the same manifest
+    def tree(root):
+        return (root.tag, root.get("package"), sorted((e.tag, e.get("{%s}name" % A_NS)) for e in root.iter()
+                                                      if e.tag in ("activity", "service", "receiver", "provider", "uses-permission")))
+    want = ("manifest", pkg, sorted([(t, n) for t, raws in comp.items() for n in raws] + [("uses-permission", n) for n, _ in m["perms"]]))
+    for entry, f in (("get_android_manifest_xml", lambda: tree(a.get_android_manifest_xml())),
+                     ("get_android_manifest_axml", lambda: tree(a.get_android_manifest_axml().get_xml_obj()))):
+        g = q(entry, f)
+        if g != ("<exc>",) and g != want:
+            bad("manifest_tree", entry, "%s() shows %r, manifest declares %r" % (entry, g, want))
+    # requested permissions through the other permission queries
+    declared = set(n for n, _ in m["perms"])
+    g1 = q("get_requested_aosp_permissions", a.get_requested_aosp_permissions)
+    g2 = q("get_requested_third_party_permissions", a.get_requested_third_party_permissions)
+    if g1 != ("<exc>",) and g2 != ("<exc>",) and (set(g1) | set(g2) != declared or set(g1) & set(g2)):
+        bad("permission", "aosp+third_party", "get_requested_aosp_permissions() %r + get_requested_third_party_permissions() %r do not "
+            "partition the requested permissions %r" % (sorted(g1), sorted(g2), sorted(declared)))
+    g = q("get_details_permissions", lambda: sorted(a.get_details_permissions()))
+    if g != ("<exc>",) and not set(g) <= declared:
+        bad("permission", "get_details_permissions", "get_details_permissions() describes %r, manifest requests only %r" % (g, sorted(declared)))
+    g = q("get_uses_implied_permission_list", lambda: sorted(x[0] for x in a.get_uses_implied_permission_list()))
+    if g != ("<exc>",) and set(g) & declared:
+        bad("permission", "get_uses_implied_permission_list", "get_uses_implied_permission_list() %r lists explicitly requested "
+            "permissions %r" % (g, sorted(set(g) & declared)))
+    g = q("get_declared_permissions", lambda: sorted(a.get_declared_permissions()))
+    wantd = ["com.a.permission.DECL"] if "permission-decl" in m["extra"] else []
+    if g != ("<exc>",) and g != wantd:
+        bad("declared_permission", "get_declared_permissions", "get_declared_permissions() = %r, manifest declares %r" % (g, wantd))
 
 
 def judge(m, stats=None, history=()):
@@ -604,6 +727,7 @@ def judge(m, stats=None, history=()):
             for f in feats:
                 out.append(("%s:%s" % (api, f), "get_%s() = %r, manifest declares %r (not class names: taken literally by Android)"
                             % (api, sorted(g), names)))
+    _alt(a, m, q, out)
     return out, tuple(obs)
 
 
@@ -619,13 +743,21 @@ def space(ctx):
     D = dims(ctx)
     return {"dimensions": {n: len(a) for n, a, _ in D},
             "bases": {"MIN": {n: a[0] for n, a, _ in D}, "RICH": {n: a[r] for n, a, r in D}},
-            "rule": "all models differing from a base in <= 2 dimensions (singles + all pairs at full alphabets), union over both bases"
+            "rule": "all models differing from a base in <= 2 dimensions (singles + all pairs at full alphabets), union over both bases "
+                    "(dimension 'order' is varied around RICH only)"
                     + ("; plus full product pkg x act x svc x rcv x prv x main{none, one} over MIN" if ctx.thorough else ""),
             "component_names": NAMES, "component_edge_names": EDGE_NAMES, "permission_items": PERM_ITEMS, "feature_items": FEAT_ITEMS, "library_items": LIB_ITEMS,
             "main_patterns": [t for t, _ in MAIN_ALPHA], "apks": len(cases(ctx)),
             "history": {"models": len(history_models(ctx)),
                         "models_rule": "RICH base and its single-dimension variations"
                                        + ("; MIN single-dimension variations; RICH pairs over main, feat, extra" if ctx.thorough else ""),
+                        "decoy": {"model": decoy_model("com.a"), "rule": "opened and queried at the start of every shard and replay; "
+                                  "each model is judged after the previous model of its shard (kept in the witness)"},
+                        "alternative_entry_points": ["get_all_attribute_value", "get_all_attribute_value(format_value=False)", "find_tags",
+                                                     "get_attribute_value", "get_android_manifest_xml", "get_android_manifest_axml",
+                                                     "get_requested_aosp_permissions+get_requested_third_party_permissions",
+                                                     "get_details_permissions", "get_uses_implied_permission_list",
+                                                     "get_declared_permissions"],
                         "depth1_menu": list(PRE), "depth2_menu": PRE2,
                         "histories_per_model": len(histories()),
                         "rule": "on a fresh APK object per history: every single pre-query, every ordered pair (repeats included) of "
@@ -687,12 +819,19 @@ def judge_history(m, history, cache=None, stats=None):
 def run_shard(ctx, shard):
     acc = Acc()
     allc = cases(ctx)
+    for pkg in ("com.a", "a"):
+        _decoy(pkg, acc.count)
+        acc.count("decoys_opened")
+    prev = None
     for t in allc[shard::NSH]:
         m = model_of(ctx, t)
         res, outcome = judge(m, acc.count)
         acc.case(nontrivial=t if any(t) else None, outcome=outcome)
         for key, msg in res:
-            acc.violation(key, {"model": m}, msg)
+            acc.violation(key, {"model": m, "prev": prev} if prev is not None else {"model": m},
+                          msg + ("" if prev is None else "\n(opened before in the same process, after the decoys: %r)" % (prev,)))
+        prev = m
+        acc.count("cases_after_a_different_manifest")
         if shard == 0 and len(acc.samples) < 3 and sum(1 for x in t if x) == 2:
             acc.sample({"model": m})
     hs = histories()
@@ -713,6 +852,10 @@ def run_shard(ctx, shard):
 
 def replay(ctx, w):
     dims(ctx)
+    for pkg in ("com.a", "a"):
+        _decoy(pkg)
+    if w.get("prev"):
+        judge(w["prev"])            # the manifest that was open before in the same process; its answers are not judged here
     if w.get("history"):
         res = judge_history(w["model"], tuple(w["history"]))[0]
     else:
@@ -729,6 +872,8 @@ def finalize(ctx, acc):
     if acc.extra.get("histories_depth1") != hm * d1 or acc.extra.get("histories_depth2") != hm * (len(hs) - d1) or hm < 150:
         acc.harness_error("history dimension degenerated: %r models, depth1 %r, depth2 %r" % (
             hm, acc.extra.get("histories_depth1"), acc.extra.get("histories_depth2")))
+    if acc.extra.get("decoys_opened") != 2 * NSH or acc.extra.get("decoy_exception"):
+        acc.harness_error("decoy history degenerated: opened %r, exceptions %r" % (acc.extra.get("decoys_opened"), acc.extra.get("decoy_exception")))
     for h in ("get_app_name", "is_androidtv", "get_main_activity", "get_activities", "get_features", "get_intent_filters"):
         if h != "get_app_name" and not acc.extra.get("prequery_nonempty:" + h):
             acc.harness_error("vacuous: pre-query %s never returned anything" % h)
